@@ -74,6 +74,18 @@ CLAIMS = {
          "Proved: the interpretation of programs (Base/Prog.v) is against an arbitrary device - any read may fail and return any buffer, any write may fail - so containment (C13) and read-only (C12) hold under every fault schedule; a refused access returns non-zero. Enumerated on the implementation: for every call of the target groups (sequential/positioned reads across block and extension boundaries, listings/lookups via hash tables and cache, overwrite, create, mkdir/delete/move, truncate/comment) one run per device read and per device write the call performs, with exactly that transfer failing (garbage left in the buffer); judged: no crash (part of the runs under AddressSanitizer), read calls return a prefix of the true bytes or an error, bystander files read back correctly after the fault clears and after remount; flavours OFS/FFS/FFS-DIRCACHE (thorough: all six).",
          "Fault enumeration per call of fixed target groups (quick: sample of 14 per group), not over all histories. The content of a file whose own write was interrupted is not judged.",
          "single-fault enumeration through the native-device interface + Coq any-device theorems", "DESIGN.md section 5 C19"),
+ "C09": ("exploration",
+         "Memory safety of compiled C is outside what a Gallina model can exhibit (DESIGN.md section 11). Proved: the index arithmetic with which the write path addresses its fixed-size buffers stays in bounds - bitmap page/word/bit for every block of the volume, the 72-slot block tables for every file position, the 488-byte cache record area for every accepted record (all over regenerated expressions). Decided per explored history: valid histories from the file, namespace, directory-cache, exhaustion and partition generators (all flavours, failing calls included) under ASan(address,bounds)+LeakSanitizer, the wrapped-malloc ledger after close+unmount+closedev (no live allocation, nothing freed twice), and valgrind memcheck on a few (branches on uninitialised memory).",
+         "Partial by nature: sanitizer/ledger-judged exploration; theorems cover index arithmetic only.",
+         "sanitizer + allocation-ledger exploration; Coq proof of buffer index bounds", "DESIGN.md section 5 C09, section 11"),
+ "C18": ("exploration",
+         "Proved (generic): if every write of a write sequence lands outside a protected set (or re-writes the old content), then after ANY prefix of the sequence the protected blocks are unchanged - this lifts the per-write frame check to every interruption point. Decided per explored history: the ordered device-write log of every operation of random interleavings (4 handles, deletes so that freed blocks are reused, all six flavours) and of enumerated release-and-reuse scenarios (file of 10..150 blocks truncated to 0 / 1 block / 72 / 73 blocks through a handle that stays open, another file takes the released blocks, then flush/close of the first handle) is replayed write by write; each write must hit a block owned by nobody, by the operated object, by its directories' metadata, or a sibling header whose chain link alone changes; bitmap pages may only be written while the root's bitmap-valid flag is cleared and the flag must be set again at the end.",
+         "Frame check: per explored history, against an ownership map computed from the image before each write sequence (files open for writing are not bystanders: their on-disk block lists may lag). Theorem: generic prefix lemma only.",
+         "write-log frame checking at every prefix + Coq prefix lemma", "DESIGN.md section 5 C18"),
+ "C20": ("proof",
+         "Theorems (Props/Properties_C20.v) about Model/Unadf.v, the mirror of output_name: for EVERY byte string the image-derived part of the output path, after the rewriting pass, has no '..' component and does not start with a separator, hence lexical resolution never climbs above the directory it starts from. The model is tied to examples/unadf.c by a differential run of the compiled output_name (linked from the working tree) on hostile and random (dir, path, name) triples, and the real unadf binary extracts images with hostile names (written by the independent image writer) in a sandbox tree, with and without -d, whole tree and single path, with everything outside the extraction directory snapshotted before/after.",
+         "Hand-written model, correspondence tie (not regenerated). Kernel path resolution, pre-existing symlinks and the -w mangling are not modelled.",
+         "Coq proof over a hand model of output_name + differential correspondence + sandboxed extraction", "DESIGN.md section 5 C20"),
 }
 
 def main():
